@@ -147,6 +147,8 @@ class C06(core.PropertyCheck):
                         q = rng.random()
                         if q < 0.45:
                             body.append({"inc": rng.choice(files + ["index.txt", "missing.rst"]) if rng.random() < 0.9 else f})
+                            if rng.random() < 0.12:
+                                body[-1]["sp"] = rng.choice(["sub/../", "./", "a/b/../../"])
                         elif q < 0.6:
                             body.append({"c": [{"inc": rng.choice(files)}]})
                         else:
@@ -245,7 +247,8 @@ class C06(core.PropertyCheck):
             i = counter[0]
             counter[0] += 1
             if "inc" in spec:
-                return n.Directive((i,), [], "", "include", [n.Text((i,), ("/steps/" if spec["inc"] == gen else "/") + spec["inc"])], {})
+                # the path may be spelled with segments that cancel out (`/x/../f0.rst`, `/./f0.rst`): it names the same file
+                return n.Directive((i,), [], "", "include", [n.Text((i,), ("/steps/" if spec["inc"] == gen else "/" + spec.get("sp", "")) + spec["inc"])], {})
             return n.Section((i,), [mk(c) for c in spec["c"]])
 
         docs = {}
@@ -286,6 +289,13 @@ class C06(core.PropertyCheck):
     def _arg(self, node):
         a = node.argument[0].value.strip("/")
         a = a[len("steps/"):] if a.startswith("steps/") else a
+        parts = []
+        for seg in a.split("/"):          # independent restatement of what a path with `.` / `..` segments names
+            if seg == ".." and parts:
+                parts.pop()
+            elif seg not in (".", ""):
+                parts.append(seg)
+        a = "/".join(parts)
         return resolve_inc(self._pages, a)
 
     def _doc(self, node):
